@@ -111,6 +111,9 @@ def palette(size, tier="quick"):
         Placement(s=1000, q=(0, 0, 1, 0), t=(0, 0, 0), name="kilo_flip"),
         # a plane / an edge leaning one milliradian from the coordinate planes: "already aligned" shortcuts must be exact tests
         Placement(q=(2000, 1, 0, 0), t=(F(1, 3), -d, 2 * d), name="tilt_1e-3_rad"),
+        # a hundred thousand diameters from the origin ("far from the origin"): tolerances relative to coordinate magnitudes and
+        # formulas that cancel against the offset show here; the doubles still resolve the shape to 1e-11 of its size
+        Placement(t=(120011 * d, -70003 * d, 30013 * d), name="far_1e5_diameters"),
         # micrometre-sized copy a few diameters from the origin: absolute tolerances (1e-5 .. 1e-8) must not matter
         Placement(s=F(1, 10 ** 6), q=(1, 2, 2, 0), t=(F(3 * d, 10 ** 6), F(-2 * d, 10 ** 6), F(d, 10 ** 6)), name="micro_rot9_offset"),
     ]
